@@ -88,10 +88,21 @@ def main() -> int:
                             'violation_lines': len(re.findall(r'^VIOLATION ', c.stdout, re.M)), 'kinds': kinds, 'wall_s': round(time.time() - t0),
                             'tail': c.stdout[-500:] if c.returncode not in (0, 1) else ''}
             sh(['git', '-C', ROOT, 'checkout', '--', 'evidence/%s.json' % a.pid])
+        prev = {}
+        mp = os.path.join(sd, 'meta.json')
+        if os.path.exists(mp):
+            try:
+                prev = json.load(open(mp))
+            except ValueError:
+                prev = {}
+        if 'tests_with_change' not in out and prev.get('confirmed', {}).get('tests_with_change'):
+            out['tests_with_change'] = prev['confirmed']['tests_with_change']
+        if 'check' not in out and prev.get('check_result'):
+            out['check'] = prev['check_result']
         meta = {
             'property': a.pid,
             'origin': 'fresh sub-agent given only the property text and a scratch worktree of /repo',
-            'needs_to_manifest': a.needs,
+            'needs_to_manifest': a.needs or prev.get('needs_to_manifest', ''),
             'confirmed': {k: out[k] for k in ('demo_without_change', 'demo_with_change', 'patch_applies_on_head', 'tests_with_change') if k in out},
             'what_was_run': 'tools_confirm_seed.py: demo on unchanged scratch worktree (must exit 0), git apply, demo again (must fail), repository tests named above with the change, then the check against the scratch tree',
             'check_result': out.get('check'),
